@@ -195,6 +195,28 @@ class VNone(SV):
 NONE = VNone()
 
 
+class VOpt(SV):
+    """a lazily resolved Optional input: `isnone` is a Bool term; the inner value is only materialised (and the path only forks) when the
+    value is USED rather than merely tested against None / truth-tested"""
+    __slots__ = ("isnone", "thunk", "inner", "forced", "name", "ty")
+
+    def __init__(self, isnone, thunk, name, ty):
+        self.isnone = isnone
+        self.thunk = thunk
+        self.inner = None
+        self.forced = None
+        self.name = name
+        self.ty = ty
+
+    def get(self):
+        if self.inner is None:
+            self.inner = self.thunk()
+        return self.inner
+
+    def __repr__(self):
+        return f"Opt({self.name})"
+
+
 class VEnum(SV):
     __slots__ = ("ename", "t")
 
